@@ -12,7 +12,8 @@ THEOREMS = ["C13_line_table_exact", "C13_source_pos_in_range", "C13_line_is_newl
             "C13_line_is_newlines_before_partial", "C13_col_spec_partial", "C13_col_counts_characters",
             "C13_partial_table_same_position", "C13_span_start_le_end", "C13_span_start_le_end_any_table",
             "C13_comment_span_start_le_end", "C13_lex_lines_strictly_increasing",
-            "C13_fixed_line_table", "C13_fixed_line_and_col_spec"]
+            "C13_fixed_line_table", "C13_fixed_line_and_col_spec",
+            "C13_span_end_is_position_after_last_character", "C13_fixed_span_end_spec"]
 AXIOMS_OK = []
 TRUSTED = ["hand-written Gallina model of FileInfo.SourcePos, NodeInfo.Start/End, Comment.End (ast/file_info.go) and of the rune-level "
            "control flow of protoLex.Lex / readIdentifier / readNumber / readStringLiteral / skipToEndOf*Comment (parser/lexer.go) "
@@ -144,17 +145,29 @@ def strlit_newlines(data):
     return out
 
 
-def expected_col(data, start, off):
-    """1 + characters since the line start, a tab advancing to the next multiple of eight; None if the bytes
-    in between are not whole valid characters"""
-    col, i = 0, start
-    while i < off:
+def oracle_positions(data):
+    """The property, read off the text alone: for every offset 0..len(data) the pair (line, column) with
+    line = 1 + number of newlines before the offset and column = 1 + characters since the line start, a tab
+    advancing to the next multiple of eight.  column is None where the text does not define it: the offset is
+    inside a character, or a byte that is not part of a valid character lies between the line start and it."""
+    n = len(data)
+    out = [None] * (n + 1)
+    line, col, i = 1, 0, 0
+    while True:
+        out[i] = (line, None if col is None else col + 1)
+        if i >= n:
+            break
         r, sz = go_decode(data, i)
-        if (r == 0xFFFD and sz == 1) or i + sz > off:
-            return None
-        col = col + (8 - col % 8) if r == 9 else col + 1
+        for j in range(i + 1, min(i + sz, n + 1)):
+            out[j] = (line, None)
+        if r == 10:
+            line, col = line + 1, 0
+        elif r == 0xFFFD and sz == 1:
+            col = None
+        elif col is not None:
+            col = col + (8 - col % 8) if r == 9 else col + 1
         i += sz
-    return col + 1
+    return out
 
 
 PROTO_FRAGS = ['syntax = "proto3";\n', "package a.b;\n", 'import "x.proto";\n', "message M {\n", "}\n", "  int32 x = 1;\n",
@@ -167,6 +180,54 @@ BROKEN_FRAGS = ["\"abc\n", "\"a\\\nb\"", "\"\\u\n\n12\"", "'\\x\n'", "\"\\U0001\
 ALPHA = [b'"', b"'", b"\\", b"\n", b"/", b"*", b"x", b"u", b"0", b" ", b"\t", "é".encode(), b";"]
 
 
+# ---- files whose tokens contain tabs and multi-byte characters (string literals, comments), at arbitrary columns ----
+LIT_CHARS = ["a", "b", "\t", "\t", "\t", "é", "€", "😀", " ", "\\t", "\\x41", "\\\\", "z"]
+INDENTS = ["", " ", "  ", "\t", "\t\t", " \t", "   \t ", "/* é€ */", "/* é\t*/", "/*\t*/\t", "/* a\n\t é */ ", "      ", "       ", "        "]
+TAILS = ["", "", " // c", "\t// tab\tinside é", " // ends in tab\t", " // ends in é", "\t/* b\tc */", " /* € */\t", "\r", " //\t\r"]
+DECLS = ["import %s;", "option java_package = %s;", "option (o).f = %s %s;", "optional string f = 1 [default = %s];",
+         "optional string f = 1 [default = %s %s, json_name = %s];", "A = 0 [(o) = %s];", "reserved %s, %s;",
+         "option (o) = { k: %s l: [%s, %s] };", "optional bytes g = 2 [(x.y) = { s: %s }, deprecated = true];",
+         "string h = 3 [json_name = %s]; int32 i = 4;", "option (o) = %s;option (q) = %s;", "rpc R(A) returns (B) { option (p) = %s; }"]
+
+
+def tabbed_literal(rng):
+    q = rng.choice(["\"", "\"", "'"])
+    return q + "".join(rng.choice(LIT_CHARS) for _ in range(rng.range(0, 6))) + q
+
+
+def tabbed_file(rng):
+    """a parseable file: every declaration line has random indentation (tabs, spaces, multi-byte characters and
+    comments in front), string literals holding raw tabs and multi-byte characters, and a random tail"""
+    out = [rng.choice(["", "syntax = \"proto2\";\n", "\tsyntax = \"proto3\";\t// é\n", "edition = \"2023\";\n"])]
+    for _ in range(rng.range(1, 5)):
+        d = rng.choice(DECLS)
+        d = d % tuple(tabbed_literal(rng) for _ in range(d.count("%s")))
+        wrap = rng.below(4)
+        if d.startswith(("import", "option")) and wrap:
+            wrap = 0
+        if d.startswith("A = "):
+            wrap = 2
+        elif d.startswith("rpc"):
+            wrap = 3
+        elif d.startswith(("optional", "string", "reserved")) and wrap in (0, 2, 3):
+            wrap = 1
+        if rng.chance(1, 3):
+            # break the line after some token boundary that is outside a literal
+            cut = [i for i, ch in enumerate(d) if ch in "=[,{" and d[:i].count("\"") % 2 == 0 and d[:i].count("'") % 2 == 0]
+            if cut:
+                c = rng.choice(cut) + 1
+                d = d[:c] + rng.choice(["\n", "\r\n", "\n\n"]) + rng.choice(INDENTS) + d[c:]
+        line = rng.choice(INDENTS) + d + rng.choice(TAILS) + "\n"
+        if wrap == 1:
+            line = rng.choice(INDENTS) + "message M {" + rng.choice(["\n", " ", "\t"]) + line + rng.choice(INDENTS) + "}" + rng.choice(TAILS) + "\n"
+        elif wrap == 2:
+            line = rng.choice(INDENTS) + "enum E {" + rng.choice(["\n", " ", "\t"]) + line + rng.choice(INDENTS) + "}" + rng.choice(TAILS) + "\n"
+        elif wrap == 3:
+            line = rng.choice(INDENTS) + "service S {" + rng.choice(["\n", " ", "\t"]) + line + rng.choice(INDENTS) + "}" + rng.choice(TAILS) + "\n"
+        out.append(line)
+    return "".join(out).encode("utf-8")
+
+
 def P(p):
     return "(%d, %d)%%nat" % (p[0], p[1])
 
@@ -176,7 +237,12 @@ def run(ctx):
     texts = [b"", b"\n", b"\"\n", b"\"\n$", b"'\\\n';\n$", b"\tmessage\t\xc3\xa9 M { }", b"\xef\xbb\xbfmessage M {}\n",
              b"message M {\n /* c\n\n */ $ }\n", b"option x = \"\\u\n\n12\";\n$\n", b"a\r\nb\r\n\r\n", b"// only a comment",
              b"/* a\n b */ message M {\n\tint32 \xc3\xbc = 1;\n}\n", b"message M { option x = \"a\\\nb\";\n\n  $\n}\n",
-             b"\xff\n\x80;\n", b"\"\xe2\x82\"\n;", b"syntax = \"proto3\";\nmessage M {\n}\n"]
+             b"\xff\n\x80;\n", b"\"\xe2\x82\"\n;", b"syntax = \"proto3\";\nmessage M {\n}\n",
+             # tokens that hold tabs / multi-byte characters, and nodes that end in them
+             b"message M {\n  optional string s = 1 [default = \"a\tb\"];\n}\n",
+             "message M {\n\toptional string s = 1 [default = \"é\t\tz\" 'q\tr', json_name = \"k\t\"];\t// c\t\n}\n".encode(),
+             "option (o) = { s: \"😀\t€\" };\t/* a\tb */ import '\t';\n".encode(),
+             "// é\t\n/* \t */\t// €".encode(), b"import \"\t\";", b"\t\"\t\t\"\t'\t'"]
     ncorpus = len(texts)
     maxsyms = ctx.budget(3, 4)
     for n in range(1, maxsyms + 1):
@@ -192,17 +258,29 @@ def run(ctx):
         texts.append(bytes(rng.choice([0x22, 0x27, 0x5c, 0x0a, 0x2f, 0x2a, 0x78, 0x75, 0x55, 0x30, 0x37, 0x20, 0x09, 0x0d, 0xc3, 0xa9, 0x3b,
                                        0x61, 0x2e, 0x65, 0x2b, 0x00, 0xe2, 0x82, 0xac, 0x7b, 0x7d])
                            if rng.chance(9, 10) else rng.below(256) for _ in range(rng.range(1, 30))))
+    coq_limit = len(texts) + ctx.budget(25, 2000)     # the texts below that index also go through the model in coqc
+    ntab = ctx.budget(400, 20000)
+    for _ in range(ntab):
+        texts.append(tabbed_file(rng))
     ctx.rule = ("source texts: hand-picked corpus (%d) + all concatenations of 1..%d symbols from {\", ', \\, LF, /, *, x, u, 0, space, tab, "
                 "U+00E9, ;} (%d) + random proto-like files built from declarations, tabs, CRLF, blank lines, line/block comments with multi-byte "
                 "characters, string literals with every escape form, and broken fragments (unterminated strings, newline after backslash, NUL, "
-                "stray bytes) + random strings over the lexer's special bytes; every text goes through the real lexer+parser with a reporter "
-                "that keeps going; SourcePos is observed for every offset 0..len, every item, every AST node, every reported error. "
-                "distinct = distinct (text, offset); non-trivial = offset > 0" % (ncorpus, maxsyms, nexh))
+                "stray bytes) + random strings over the lexer's special bytes + %d parseable files whose declarations sit behind random "
+                "indentation (tabs, spaces, comments with tabs and multi-byte characters), hold single and adjacent string literals with raw "
+                "tabs, 2-, 3- and 4-byte characters and escapes (import, option values, message literals, default / json_name, reserved names), "
+                "are broken over lines (LF, CRLF, blank lines) and end in comments that contain or end in a tab or a multi-byte character; "
+                "every text goes through the real lexer+parser with a reporter "
+                "that keeps going; observed: SourcePos of every offset 0..len, Start() and End() of every item and every AST node, every "
+                "reported error; each is compared with the line and column recomputed from the text (Start = position of the first "
+                "character, NodeInfo.End = position just after the last character of the last token, Comment.End = position of the offset "
+                "it reports). The model in coqc sees all texts but the last %d of the parseable-file stratum (direct oracle only). "
+                "distinct = distinct (text, offset); non-trivial = offset > 0" % (ncorpus, maxsyms, nexh, ntab, max(0, len(texts) - coq_limit)))
     t_start = time.time()
     outs = ctx.impl("fileinfo", [{"mode": "parse", "text": t.hex()} for t in texts])
     terms, meta = [], []
     parse_panics = []
-    for t, o in zip(texts, outs):
+    for ti, (t, o) in enumerate(zip(texts, outs)):
+        in_coq = ti < coq_limit
         if "crash" in o or "panic" in o:
             ctx.corr_break("fileinfo", {"text": t.hex()}, o)
             ctx.violation("panic", "lexer/parser or SourcePos panicked on this text", {"text": t.hex(), "observed": o})
@@ -213,19 +291,45 @@ def run(ctx):
         strnl = strlit_newlines(data)
         errpos = [e[0] for e in o["errs"]] + [e[1] for e in o["errs"]]
 
-        def judge(what, line, col, off, lexed_table):
-            """the property on one reported position"""
-            rep = {"text": t.hex(), "offset": off, "reported": [line, col], "what": what}
+        opos = oracle_positions(data)
+
+        def judge(what, line, col, off, lexed_table, keys=("line-number", "column"), extra=None):
+            """the property on one reported position: (line, col) must be the position of offset off in the text"""
+            if not 0 <= off <= len(data):
+                ctx.violation(keys[0], "a reported position lies outside the file", dict(extra or {}, text=t.hex(), offset=off, reported=[line, col], what=what))
+                return
+            eline, ecol = opos[off]
+            if line == eline and (ecol is None or col == ecol):
+                return
+            rep = dict(extra or {}, text=t.hex(), offset=off, reported=[line, col], expected=[eline, ecol], what=what)
             before = [p for p in true_nl if p <= off]
             missed = [p for p in before if p in strnl and (lexed_table is None or p not in lexed_table)]
-            if line != 1 + len(before):
-                ctx.violation(KEY_STRNL if missed and line == 1 + len(before) - len(missed) else "line-number",
+            if line != eline:
+                ctx.violation(KEY_STRNL if missed and line == eline - len(missed) else keys[0],
                               "reported line != 1 + number of newlines before the offset", rep)
             start = before[-1] if before else 0
-            exp = expected_col(data, start, off)
-            if exp is not None and col != exp:
-                ctx.violation(KEY_STRNL if start in missed else "column",
+            if ecol is not None and col != ecol:
+                ctx.violation(KEY_STRNL if start in missed else keys[1],
                               "reported column != 1 + characters since the line start (tab -> next multiple of 8)", rep)
+
+        def judge_span(what, first, last, st, en, is_comment):
+            """Start()/End() of an item or node whose first / last items are first / last = [offset, length, ...].
+            NodeInfo.Start is the position of the first character (Offset = its offset).  NodeInfo.End is the position
+            just after the last character (ast/file_info.go: open range; its Offset field stays on the last character),
+            so its line and column must be those of offset+length of the last item.  Comment.End is the position of
+            the comment's last byte: line and column must be those of the offset it reports."""
+            ex = {"first_item": first[:2], "last_item": last[:2], "start": st, "end": en}
+            if st[2] != first[0]:
+                ctx.violation("span-start-position", "Start() of a %s is not at the first character of its first item" % what,
+                              dict(ex, text=t.hex(), what=what + " Start()"))
+            else:
+                judge(what + " Start()", st[0], st[1], first[0], lines, ("span-start-position", "span-start-position"), ex)
+            if is_comment:
+                judge(what + " End() (comment: position of the last byte)", en[0], en[1], en[2], lines,
+                      ("span-end-position", "span-end-position"), ex)
+            else:
+                judge(what + " End() (position just after the last character)", en[0], en[1], last[0] + last[1], lines,
+                      ("span-end-position", "span-end-position"), ex)
 
         if o.get("parse_panic"):
             # parser.Parse itself panicked: totality of the parser is property C12; here only the positions it
@@ -238,23 +342,24 @@ def run(ctx):
                 judge("error position", l, c, off, None)
             continue
         lines, items, pos = o["lines"], o["items"], o["pos"]
+        T, Mt = (terms, meta) if in_coq else ([], [])
         lexed = max([lines[-1]] + [it[0] + it[1] for it in items])
-        terms.append("FILines %s %s %d%%nat" % (dl, coq_nat_list(lines), lexed))
-        meta.append(("lines", t, {"lines": lines, "lexed": lexed}))
-        terms.append("FIPos %s %s %s" % (dl, coq_nat_list(lines), coq_list(pos, lambda p: "(Some %s)" % P(p))))
-        meta.append(("pos", t, {"lines": lines}))
+        T.append("FILines %s %s %d%%nat" % (dl, coq_nat_list(lines), lexed))
+        Mt.append(("lines", t, {"lines": lines, "lexed": lexed}))
+        T.append("FIPos %s %s %s" % (dl, coq_nat_list(lines), coq_list(pos, lambda p: "(Some %s)" % P(p))))
+        Mt.append(("pos", t, {"lines": lines}))
         spans = [(it, sp) for it, sp in zip(items, o["spans"]) if sp]
         if spans:
-          terms.append("FISpans %s %s %s" % (dl, coq_nat_list(lines), coq_list(
+          T.append("FISpans %s %s %s" % (dl, coq_nat_list(lines), coq_list(
             spans, lambda x: "(%d%%nat, %d%%nat, %s, %s, %s)" % (x[0][0], x[0][1], coq_bool(x[0][2]), P(x[1][0]), P(x[1][1])))))
-          meta.append(("spans", t, {"spans": spans}))
+          Mt.append(("spans", t, {"spans": spans}))
         if o["nodes"]:
-          terms.append("FINodes %s %s %s" % (dl, coq_nat_list(lines), coq_list(
+          T.append("FINodes %s %s %s" % (dl, coq_nat_list(lines), coq_list(
             o["nodes"], lambda n: "(%s, %s, %s, %s)" % (P(items[n[0]]), P(items[n[1]]), P(n[2]), P(n[3])))))
-          meta.append(("nodes", t, {"nodes": o["nodes"]}))
+          Mt.append(("nodes", t, {"nodes": o["nodes"]}))
         if errpos:
-          terms.append("FIErrs %s %s %s" % (dl, coq_nat_list(lines), coq_list(errpos, lambda e: "(%d, %d, %d)%%nat" % tuple(e))))
-          meta.append(("errs", t, {"errs": errpos}))
+          T.append("FIErrs %s %s %s" % (dl, coq_nat_list(lines), coq_list(errpos, lambda e: "(%d, %d, %d)%%nat" % tuple(e))))
+          Mt.append(("errs", t, {"errs": errpos}))
         # ---- direct oracle ----
         bogus = [p for p in lines[1:] if p not in true_nl]
         if bogus or lines[0] != 0:
@@ -271,12 +376,14 @@ def run(ctx):
         for l, c, off in errpos:
             ctx.count((data, "e", off), True, "error-position")
             judge("error position", l, c, off, lines)
-        for what, lst in (("item", [sp for _, sp in spans]), ("node", [(n[2], n[3]) for n in o["nodes"]])):
-            for st, en in lst:
+        for what, lst in (("item", [(it, it, sp[0], sp[1], bool(it[2])) for it, sp in spans]),
+                          ("node", [(items[n[0]], items[n[1]], n[2], n[3], False) for n in o["nodes"]])):
+            for first, last, st, en, isc in lst:
                 ctx.count((data, what, tuple(st), tuple(en)), True, what + "-span")
                 if (st[0], st[1]) > (en[0], en[1]) or st[2] > en[2]:
                     ctx.violation("span-start-after-end", "a %s span starts after it ends" % what,
                                   {"text": t.hex(), "start": st, "end": en})
+                judge_span(what, first, last, st, en, isc)
     # SourcePos on arbitrary byte strings with an explicit table (no lexer)
     tabs = []
     for _ in range(ctx.budget(150, 10000)):
